@@ -651,31 +651,52 @@ def text_level_laws(ctx):
     plain = [a for a in A if a[0] not in '>~+']
     with warnings.catch_warnings():
         warnings.simplefilter('ignore')
+        def guarded(fn, law, a, b):
+            try:
+                fn()
+            except Exception as ex:   # a valid selector of the grammar must compile: an exception here is a failure of the law
+                fails.append(dict(law=law, A=a, B=b, error=f'{type(ex).__name__}: {str(ex).splitlines()[0][:100]}'))
         for a in plain:
             for b in plain:
                 n += 1
-                la, lb, lab = sv.compile(a).selectors, sv.compile(b).selectors, sv.compile(f'{a}, {b}').selectors
+                try:
+                    la, lb, lab = sv.compile(a).selectors, sv.compile(b).selectors, sv.compile(f'{a}, {b}').selectors
+                except Exception as ex:
+                    fails.append(dict(law='A, B compiles', A=a, B=b, error=f'{type(ex).__name__}: {str(ex).splitlines()[0][:100]}'))
+                    continue
                 if lab.selectors != la.selectors + lb.selectors or lab.is_not or lab.is_html:
                     fails.append(dict(law='A, B == alternatives of A ++ alternatives of B', A=a, B=b))
                 for kw, is_not in ((':is', False), (':where', False), (':matches', False), (':not', True)):
-                    inner = sv.compile(f'x{kw}({a}, {b})').selectors[0].selectors[0]
-                    ia = sv.compile(f'x{kw}({a})').selectors[0].selectors[0]
-                    ib = sv.compile(f'x{kw}({b})').selectors[0].selectors[0]
+                    try:
+                        inner = sv.compile(f'x{kw}({a}, {b})').selectors[0].selectors[0]
+                        ia = sv.compile(f'x{kw}({a})').selectors[0].selectors[0]
+                        ib = sv.compile(f'x{kw}({b})').selectors[0].selectors[0]
+                    except Exception as ex:
+                        fails.append(dict(law=f'{kw}(A, B) compiles', A=a, B=b, error=f'{type(ex).__name__}: {str(ex).splitlines()[0][:100]}'))
+                        continue
                     if inner.selectors != ia.selectors + ib.selectors or inner.is_not != is_not or inner.is_html:
                         fails.append(dict(law=f'{kw}(A, B) carries A ++ B', A=a, B=b))
         # :has(): each comma item keeps its own leading combinator (descendant when none is written)
         for a in A:
             for b in A:
                 n += 1
-                hab = sv.compile(f'x:has({a}, {b})').selectors[0].selectors[0]
-                ha = sv.compile(f'x:has({a})').selectors[0].selectors[0]
-                hb = sv.compile(f'x:has({b})').selectors[0].selectors[0]
+                try:
+                    hab = sv.compile(f'x:has({a}, {b})').selectors[0].selectors[0]
+                    ha = sv.compile(f'x:has({a})').selectors[0].selectors[0]
+                    hb = sv.compile(f'x:has({b})').selectors[0].selectors[0]
+                except Exception as ex:
+                    fails.append(dict(law=':has(A, B) compiles', A=a, B=b, error=f'{type(ex).__name__}: {str(ex).splitlines()[0][:100]}'))
+                    continue
                 if hab.selectors != ha.selectors + hb.selectors:
                     fails.append(dict(law=':has(A, B) == items of :has(A) ++ items of :has(B)', A=a, B=b))
         # relation chains are frozen right to left: `a > b c` is c with relation b (' ') with relation a ('>')
         for chain in (['a', '>', 'b', ' ', 'c'], ['a', '+', 'b', '~', 'c', '>', 'd'], ['a', ' ', 'b']):
             n += 1
-            s = sv.compile(''.join(x if x != ' ' else ' ' for x in chain)).selectors[0]
+            try:
+                s = sv.compile(''.join(x if x != ' ' else ' ' for x in chain)).selectors[0]
+            except Exception as ex:
+                fails.append(dict(law='relation chain compiles', selector=''.join(chain), error=f'{type(ex).__name__}'))
+                continue
             names, rels = chain[0::2], chain[1::2]
             cur = s
             ok = True
